@@ -111,7 +111,7 @@ class GtfLeg(object):
             d = {"style": "gtf", "sep": draw(st.sampled_from(tm.SEPS)), "trailing": draw(st.booleans()), "repeated": False}
             return {"genes": genes, "order": order, "dialect": d, "keys": keys, "custom": custom,
                     "disable_genes": draw(st.booleans()), "disable_transcripts": draw(st.booleans()),
-                    "file_db": draw(st.integers(0, 3)) == 0}
+                    "file_db": draw(st.integers(0, 3)) == 0, "split_update": draw(st.integers(0, 3)) == 0}
 
         return case().filter(lambda c: nlines(c["genes"]) >= 1 and any(
             s["ft"] == "EXON" for g in c["genes"] for t in g["transcripts"] for s in t["subs"]))
@@ -122,6 +122,8 @@ class GtfLeg(object):
         explicit = any(g["explicit"] or any(t["explicit"] for t in g["transcripts"]) for g in case["genes"])
         exonless = any(not any(s["ft"] == "EXON" for s in t["subs"]) for g in case["genes"] for t in g["transcripts"])
         labels = ["infer genes=%s transcripts=%s" % (not case["disable_genes"], not case["disable_transcripts"])]
+        if case.get("split_update") and len(case["genes"]) >= 2 and not case["custom"]:
+            labels.append("last-gene-through-update")
         for name, flag in (("multi-transcript", multi_tx), ("shuffled", shuffled), ("explicit-line", explicit),
                            ("exonless-transcript", exonless), ("custom-keys", case["custom"])):
             if flag:
@@ -141,7 +143,23 @@ class GtfLeg(object):
         if case["custom"]:
             kw.update(gtf_transcript_key=tk, gtf_gene_key=gk, gtf_subfeature=sub, id_spec={"gene": gk, "transcript": tk})
         dbfn = ctx.path("a.db") if case["file_db"] else ":memory:"
-        db = gffutils.create_db(path, dbfn, keep_order=True, **kw)
+        split = case.get("split_update")
+        if split and len(case["genes"]) >= 2 and not case["custom"]:
+            # (custom keys are not combined with update(): update() hands its keyword arguments to the importer
+            # class, which knows them as transcript_key/gene_key/subfeature, not by create_db's gtf_* names)
+            # the last gene's lines arrive later through update() with the same arguments (as the docs ask);
+            # the lines are regrouped so that the first import holds complete genes
+            last = case["genes"][-1]["id"]
+            recs = [r for r in recs if r["gene"] != last] + [r for r in recs if r["gene"] == last]
+            lines = [tm.render_line(r, d) for r in recs]
+            k = sum(1 for r in recs if r["gene"] != last)
+            p1 = ctx.write("a1.gtf", "\n".join(lines[:k]) + "\n")
+            p2 = ctx.write("a2.gtf", "\n".join(lines[k:]) + "\n")
+            db = gffutils.create_db(p1, dbfn, keep_order=True, **kw)
+            db.update(p2, make_backup=False, **kw)
+        else:
+            split = False
+            db = gffutils.create_db(path, dbfn, keep_order=True, **kw)
         if db.dialect["fmt"] != "gtf":
             return Failure("GTF file imported with fmt %r" % db.dialect["fmt"], sig={"kind": "routing"})
         if case["file_db"]:
@@ -149,6 +167,10 @@ class GtfLeg(object):
             db = gffutils.FeatureDB(dbfn, keep_order=True)
         feats = list(db.all_features())
         n = len(recs)
+        if split:
+            # rows are no longer "file lines first": put the file's lines first, by id, for the checks below
+            derived_rows = [f for f in feats if f.source == "gffutils_derived"]
+            feats = [f for f in feats if f.source != "gffutils_derived"] + derived_rows
         # reference ids of file lines
         counters = {}
         line_ids = []
